@@ -6,6 +6,7 @@ import (
 	"fmt"
 	"math"
 	"strconv"
+	"strings"
 
 	sentinel "github.com/alibaba/sentinel-golang/api"
 	"github.com/alibaba/sentinel-golang/core/base"
@@ -123,8 +124,13 @@ func FlowMod() *Mod[flow.Rule] {
 			al = append(al, wu)
 			ma := &flow.Rule{Resource: rs, TokenCalculateStrategy: flow.MemoryAdaptive, ControlBehavior: flow.ControlBehavior(r.Intn(2)), LowMemUsageThreshold: 5000, HighMemUsageThreshold: 1000, MemLowWaterMarkBytes: 1024, MemHighWaterMarkBytes: 2048, StatIntervalInMs: iv}
 			al = append(al, ma)
-			as := &flow.Rule{Resource: rs, Threshold: 4000, RelationStrategy: flow.AssociatedResource, RefResource: ref}
+			// associated-resource rules read the statistics of the referenced resource (rs-ref; the probe
+			// sends three requests there first): over the node's statistics (interval 0 / reusable) or
+			// over an independent window fed by the referenced resource's admissions (700, 3000, 20000)
+			as := &flow.Rule{Resource: rs, Threshold: 4000, RelationStrategy: flow.AssociatedResource, RefResource: rs + "-ref", StatIntervalInMs: uint32(r.PickI(0, 3000))}
 			al = append(al, as)
+			asx := &flow.Rule{Resource: rs, Threshold: r.PickF(1, 2, 3), RelationStrategy: flow.AssociatedResource, RefResource: rs + "-ref", StatIntervalInMs: uint32(r.PickI(0, 2000, 700, 3000, 20000))}
+			al = append(al, asx)
 			// invalid in exactly one field; threshold 0 so that it would reject everything if enforced
 			bad := []func(*flow.Rule){
 				func(x *flow.Rule) { x.Resource = "" },
@@ -194,7 +200,15 @@ func FlowMod() *Mod[flow.Rule] {
 		case 5:
 			t.StatIntervalInMs += 1000
 		case 6:
-			t.RefResource += "x"
+			// the Coq cases know three referenced resources: none, the probe's (…-ref), another one
+			switch {
+			case t.RefResource == "" || strings.HasSuffix(t.RefResource, "-ref"):
+				t.RefResource = "other"
+			case t.RelationStrategy == flow.AssociatedResource:
+				t.RefResource = t.Resource + "-ref"
+			default:
+				t.RefResource = ""
+			}
 		case 7:
 			t.LowMemUsageThreshold += 1
 		case 8:
@@ -218,12 +232,31 @@ func FlowMod() *Mod[flow.Rule] {
 		}
 	}
 	m.Blocks = func(t *flow.Rule) bool {
-		// direct calculator with threshold 0: the reject checker finds 0+1 > 0, the throttling checker rejects a threshold <= 0
-		// (whatever node the rule reads: the resource's own or the referenced resource's, both hold 0)
-		return t.Threshold == 0 && t.TokenCalculateStrategy == flow.Direct
+		// direct calculator: the throttling checker rejects a threshold <= 0; the reject checker rejects
+		// iff count+1 > threshold, where the count it reads is 3 for an associated-resource rule on the
+		// probe's referenced resource (three requests were just admitted there) and 0 otherwise
+		if t.TokenCalculateStrategy == flow.WarmUp {
+			return t.Threshold == 0 // no tokens at all: both checkers reject (other warm-up rules of the alphabet have thresholds >= 1000)
+		}
+		if t.TokenCalculateStrategy != flow.Direct {
+			return false // memory-adaptive: the threshold comes from the memory usage, never 0 here
+		}
+		if t.ControlBehavior == flow.Throttling {
+			return t.Threshold <= 0
+		}
+		cnt := 0.0
+		if t.RelationStrategy == flow.AssociatedResource && t.RefResource == t.Resource+"-ref" {
+			cnt = 3
+		}
+		return t.ControlBehavior == flow.Reject && cnt+1 > t.Threshold
 	}
 	m.Probe = func(res string) (bool, *flow.Rule) {
 		Clk.AddMs(2000)
+		for i := 0; i < 3; i++ { // traffic on the referenced resource (it has no rules of its own)
+			if e, b := sentinel.Entry(res + "-ref"); b == nil {
+				e.Exit()
+			}
+		}
 		e, b := sentinel.Entry(res)
 		if b != nil {
 			if b.BlockType() != base.BlockTypeFlow {
